@@ -171,6 +171,37 @@ theorem overflow_is_diag (s : State) (seg : Active) (d : List UInt8) (inv : Inv 
   · omega
   · simp only [step, ha, f2, eta_active ha, and_self]
 
+/-- C13 (`.align n`, after /repo 9bfedb8): the padding is computed from the TRUE cursor `base + |buf|` (not the
+saturated `curr_addr`): nothing happens when it is a multiple of `n`; otherwise `n - cursor % n` bytes 0xBE are
+appended when they fit — and the new cursor is a multiple of `n` — and else the statement is the diagnostic
+`overflow` and the whole state is unchanged. -/
+theorem align_spec (s : State) (seg : Active) (n : Nat) (inv : Inv s) (ha : s.active = some seg) (hn : 0 < n) :
+    ((seg.base + seg.buf.length) % n = 0 → step s (.align n) = (s, .ok)) ∧
+    ((seg.base + seg.buf.length) % n ≠ 0 → n - (seg.base + seg.buf.length) % n ≤ seg.maxLen - seg.buf.length →
+      step s (.align n) = ({ s with active := some { seg with
+        buf := seg.buf ++ List.replicate (n - (seg.base + seg.buf.length) % n) 0xBE } }, .ok) ∧
+      (seg.base + (seg.buf ++ List.replicate (n - (seg.base + seg.buf.length) % n) 0xBE).length) % n = 0) ∧
+    ((seg.base + seg.buf.length) % n ≠ 0 → ¬ (n - (seg.base + seg.buf.length) % n ≤ seg.maxLen - seg.buf.length) →
+      step s (.align n) =
+        (s, .diag (.overflow (n - (seg.base + seg.buf.length) % n) (seg.maxLen - seg.buf.length)))) := by
+  have ok := inv.2.1 seg ha
+  have hr : seg.remaining = some (seg.maxLen - seg.buf.length) := by
+    unfold Active.remaining; rw [if_pos ok.1]
+  refine ⟨fun h0 => ?_, fun h0 h1 => ⟨?_, ?_⟩, fun h0 h1 => ?_⟩
+  · simp only [step, ha, h0, if_true]
+  · simp only [step, ha, h0, if_false, hr, h1, if_true]
+    rcases write_spec ok (List.replicate (n - (seg.base + seg.buf.length) % n) 0xBE) with ⟨_, f2⟩ | ⟨f1, _⟩
+    · rw [f2]
+    · simp only [List.length_replicate] at f1; have := ok.1; omega
+  · rw [List.length_append, List.length_replicate]
+    have h := Nat.div_add_mod (seg.base + seg.buf.length) n
+    have hlt := Nat.mod_lt (seg.base + seg.buf.length) hn
+    have e : seg.base + (seg.buf.length + (n - (seg.base + seg.buf.length) % n)) =
+        n * ((seg.base + seg.buf.length) / n + 1) := by
+      rw [Nat.mul_add, Nat.mul_one]; omega
+    rw [e, Nat.mul_mod_right]
+  · simp only [step, ha, h0, if_false, hr, h1]
+
 /-- the capacity of the active region really is the room up to the next occupied address / 2^32 -/
 theorem capacity_meaning (s : State) (seg : Active) (inv : Inv s) (ha : s.active = some seg) :
     seg.base + seg.maxLen ≤ 4294967296 ∧ ∀ k, seg.base ≤ k → k < seg.base + seg.maxLen → abs s.map k = none :=
@@ -227,6 +258,10 @@ example : (step ⟨[(0x104, [1, 0, 0, 0])], some ⟨0x100, [0, 0xBF, 0, 0xBF], 4
     .diag (.overflow 2 0) := by rfl
 example : (step ⟨[], some ⟨0x100, [1], 4294967040⟩, []⟩ (.select 0x100)).2 = .diag (.occupied 0x100) := by rfl
 example : (step ⟨[], some ⟨0xFFFFFFFF, [1], 1⟩, []⟩ (.place [2])).2 = .diag (.overflow 1 0) := by rfl
+-- /repo 9bfedb8: after a region was filled through 0xFFFFFFFF the true cursor is 2^32: `.align 2` needs no padding,
+-- `.align 3` has no room
+example : step ⟨[], some ⟨0xFFFFFFFF, [1], 1⟩, []⟩ (.align 2) = (⟨[], some ⟨0xFFFFFFFF, [1], 1⟩, []⟩, .ok) := by rfl
+example : (step ⟨[], some ⟨0xFFFFFFFF, [1], 1⟩, []⟩ (.align 3)).2 = .diag (.overflow 2 0) := by rfl
 example : Inv ⟨[(0x104, [1, 0, 0, 0])], some ⟨0x100, [0, 0xBF], 4⟩, [(0x100, 2)]⟩ := by
   refine ⟨⟨by omega, by simp, by simp, trivial⟩, fun seg h => ?_, fun p hp => ?_⟩
   · simp only [Option.some.injEq] at h; subst h
